@@ -220,6 +220,8 @@ def p_conj(itp, name, args, kw, node, st):
     if n.log is None and not n.zero:
         r.deg['g'] = dneg(n.deg['g'])
         r.deg['gy'] = dneg(n.deg['gy'])
+    if isinstance(v, Num):
+        r.conj_of = v.uid
     USED.add('conj: swaps the exponents of c and conj(c) (phase exponent negated)')
     if name.startswith('ndarray.') and isinstance(v, Num) and v.is_array and n.cplx is False:
         itp.share(r, v, whole=True)      # the conj method of a real array returns the array itself, not a copy
@@ -508,6 +510,8 @@ def p_type(itp, name, args, kw, node, st):
 @prim('builtins.hasattr', 'builtins.callable', 'builtins.any', 'builtins.all', 'ndarray.any', 'ndarray.all',
       'numpy.issubdtype', 'numpy.any', 'numpy.all', 'builtins.bool')
 def p_bool(itp, name, args, kw, node, st):
+    if name.split('.')[-1] in ('all', 'any') and args and isinstance(args[0], Num) and getattr(args[0], 'alltrue', False):
+        return Const(True, args[0].taint)
     variant = any(getattr(a, 'variant', False) for a in args)
     return BoolV(variant, taints(*args))
 
@@ -657,6 +661,7 @@ def p_zeros(itp, name, args, kw, node, st):
         cplx = _dtype_cplx(dt, False)
     # the *contents* of a fresh buffer depend on nothing; a dependence on its size is carried by the shape itself
     r = Num(zero_deg(), shape, cplx, zero=base.startswith(('zeros', 'empty')), taint=frozenset())
+    r.fill = 0 if base.startswith('zeros') else (1 if base.startswith('ones') else None)
     r.q = 'any' if r.zero else Aff(0)
     if base.startswith('ones'):
         r.role = 'ones'
@@ -1080,6 +1085,12 @@ def p_isreal(itp, name, args, kw, node, st):
         n = N(v)
         if n is None or n.cplx is None:
             return BoolV(False, taint_of(v))
+        if name == 'numpy.isreal' and n.is_array:
+            # element-wise test of the VALUES: all true for a real dtype, data dependent for a complex dtype
+            m = Num(zero_deg(), n.shape, False, taint=n.taint)
+            m.role = 'mask'
+            m.alltrue = (n.cplx is False)
+            return m
         r = not n.cplx
     if name.endswith('iscomplexobj'):
         r = not r
@@ -1523,3 +1534,167 @@ def p_hankel(itp, name, args, kw, node, st):
     r.q = None
     r.amap = _toeplitz_map(args[0], args[1] if len(args) > 1 else None, 'hankel', n0, n1)
     return r
+
+
+# ----------------------------------------------------------------------------- function forms of operators and other
+# common numpy spellings (so that an equivalent re-spelling of an expression is analysed like the operator form)
+def _binop_prim(opcls):
+    def h(itp, name, args, kw, node, st):
+        if len(args) < 2:
+            return mk(itp, name, *args)
+        from .interp_expr import elementwise_seg, origin_of, grid_of
+        op = opcls()
+        wh = kw.get('where')
+        if wh is not None and not (isinstance(wh, Const) and wh.v is True):
+            # masked ufunc: entries where the mask is false keep the value of `out` (uninitialised without one)
+            o = kw.get('out')
+            fill = getattr(o, 'fill', None) if isinstance(o, Num) else None
+            itp.events.append(('masked-ufunc', node, name, fill, itp.cur.qname if itp.cur else ''))
+        r = itp.binop(op, args[0], args[1], node)
+        elementwise_seg(op, args[0], args[1], r)
+        origin_of(args[0], args[1], r, op)
+        grid_of(args[0], args[1], r, op)
+        return r
+    return h
+
+
+PRIMS['numpy.add'] = _binop_prim(ast.Add)
+PRIMS['numpy.subtract'] = _binop_prim(ast.Sub)
+PRIMS['numpy.divide'] = PRIMS['numpy.true_divide'] = _binop_prim(ast.Div)
+PRIMS['numpy.floor_divide'] = _binop_prim(ast.FloorDiv)
+PRIMS['numpy.power'] = PRIMS['numpy.float_power'] = _binop_prim(ast.Pow)
+PRIMS['numpy.mod'] = PRIMS['numpy.remainder'] = _binop_prim(ast.Mod)
+
+
+@prim('numpy.negative', 'numpy.positive')
+def p_negative(itp, name, args, kw, node, st):
+    e = ast.UnaryOp(op=ast.USub() if name.endswith('negative') else ast.UAdd(), operand=ast.Constant(0))
+    v = args[0]
+    if isinstance(v, Const) and isinstance(v.v, (int, float, complex)):
+        return Const(-v.v if name.endswith('negative') else v.v, v.taint)
+    n = N(v)
+    if n is None:
+        return mk(itp, name, v)
+    if name.endswith('positive'):
+        return n.copy()
+    return itp.binop(ast.Mult(), Const(-1), v, node)
+
+
+@prim('numpy.square')
+def p_square(itp, name, args, kw, node, st):
+    return itp.binop(ast.Mult(), args[0], args[0], node)
+
+
+@prim('numpy.reciprocal')
+def p_reciprocal(itp, name, args, kw, node, st):
+    return itp.binop(ast.Div(), Const(1.0), args[0], node)
+
+
+@prim('numpy.maximum', 'numpy.minimum', 'numpy.fmax', 'numpy.fmin')
+def p_maximum(itp, name, args, kw, node, st):
+    a, b = N(args[0]), N(args[1])
+    if a is None or b is None:
+        return mk(itp, name, *args)
+    r = num_add(itp, a, b, node, 'concat')
+    r.ex = None
+    return r
+
+
+@prim('numpy.clip', 'ndarray.clip')
+def p_clip(itp, name, args, kw, node, st):
+    a = N(args[0])
+    if a is None:
+        return mk(itp, name, *args)
+    r = a.copy()
+    r.ex = None
+    for b in list(args[1:3]) + [kw.get('a_min'), kw.get('a_max'), kw.get('min'), kw.get('max')]:
+        nb = N(b) if b is not None and not (isinstance(b, Const) and b.v is None) else None
+        if nb is not None:
+            r = num_add(itp, r, nb, node, 'concat')
+    r.shape = a.shape
+    return r
+
+
+@prim('numpy.full', 'numpy.full_like')
+def p_full(itp, name, args, kw, node, st):
+    if name.endswith('_like'):
+        n0 = N(args[0])
+        shape = n0.shape if n0 is not None else None
+    else:
+        shape = _shape_from(args[0])
+    fv = arg(args, kw, 1, 'fill_value')
+    f = N(fv) if fv is not None else None
+    if f is None:
+        return mk(itp, name, *args)
+    r = f.copy(shape=shape)
+    r.ex = None
+    r.fill = fv.v if isinstance(fv, Const) else ('inf' if (isinstance(fv, ExtV) and fv.base in ('inf', 'Inf', 'infty')) else None)
+    itp.events.append(('alloc', node, 'full', shape, taints(args[0])))
+    return r
+
+
+PRIMS['numpy.empty_like'] = PRIMS['numpy.zeros_like']
+
+
+@prim('numpy.isclose', 'numpy.allclose', 'numpy.array_equal', 'numpy.isnan', 'numpy.isinf', 'numpy.isfinite', 'numpy.iscomplex')
+def p_predicate(itp, name, args, kw, node, st):
+    return BoolV(False, taints(*args))
+
+
+@prim('numpy.complex128', 'numpy.complex64', 'numpy.float32', 'numpy.complex_', 'numpy.float_')
+def p_npscalar(itp, name, args, kw, node, st):
+    return p_float(itp, 'builtins.complex' if 'complex' in name else 'builtins.float', args, kw, node, st)
+
+
+@prim('numpy.linalg.norm', 'scipy.linalg.norm')
+def p_norm(itp, name, args, kw, node, st):
+    a = N(args[0])
+    if a is None or len(args) > 1 or kw:
+        return mk(itp, name, *args)
+    r = p_abs(itp, 'numpy.abs', [a], {}, node, st)
+    r = N(r)
+    r = r.copy(shape=())
+    r.nonneg = True
+    r.ex = None
+    r.sz = None if a.shape != () else r.sz
+    return r
+
+
+@prim('ndarray.dot')
+def p_ndarray_dot(itp, name, args, kw, node, st):
+    return p_bilinear(itp, 'numpy.dot', args, kw, node, st)
+
+
+@prim('numpy.ravel', 'ndarray.ravel')
+def p_ravel(itp, name, args, kw, node, st):
+    r = p_same(itp, 'ndarray.flatten', args, kw, node, st)
+    if isinstance(r, Num) and isinstance(args[0], Num):
+        itp.share(r, args[0], whole=False)      # ravel returns a view whenever it can
+    return r
+
+
+@prim('numpy.cumsum', 'ndarray.cumsum')
+def p_cumsum(itp, name, args, kw, node, st):
+    a = N(args[0])
+    if a is None:
+        return mk(itp, name, *args)
+    r = a.copy()
+    r.ex = None
+    r.org = None
+    if itp.d4 and not (isinstance(a.q, Aff) or a.q == 'any'):
+        if a.q is not None:
+            itp.conflict('add', 'q', 'cumulative sum over elements whose modulation charge depends on the index', node)
+        r.q = None
+    return r
+
+
+PRIMS['ndarray.prod'] = PRIMS['numpy.prod']
+PRIMS['ndarray.std'] = PRIMS['ndarray.var'] = PRIMS['numpy.std']
+PRIMS['ndarray.round'] = PRIMS['numpy.round']
+for _n in ('fft', 'ifft', 'rfft', 'irfft'):
+    PRIMS['scipy.fft.' + _n] = PRIMS['numpy.fft.' + _n]
+PRIMS['scipy.fft.fftshift'] = PRIMS['numpy.fft.fftshift']
+PRIMS['scipy.fft.ifftshift'] = PRIMS['numpy.fft.ifftshift']
+PRIMS['scipy.fftpack.fftshift'] = PRIMS['numpy.fft.fftshift']
+PRIMS['scipy.fftpack.ifftshift'] = PRIMS['numpy.fft.ifftshift']
+PRIMS['scipy.linalg.svd'] = PRIMS['numpy.linalg.svd']
